@@ -1,1 +1,85 @@
-From Servitor Require Import Base.
+(* C01 - Remote content can never emit terminal control sequences.
+   [safe_b t] (Term.v): running the terminal state machine over t, every rune that reaches the
+   screen is printable or a newline - everything else in t is an SGR sequence ESC [ (digit|;)* m.
+   [good t]: t is a well-formed styled text (cells = SGR groups + one printable letter + reset).
+   [clean t]: no ESC and only printable runes - what object.GetString / ansi.Scrub deliver.
+   Only property theorems here. *)
+
+From Servitor Require Import Base Unicode Ansi AnsiSpec Term Style Html Gemtext Plaintext.
+From Servitor.Facts Require Import TermFacts StyleFacts HtmlFacts MarkupFacts.
+Local Open Scope Z_scope.
+
+(* every JSON string is scrubbed on extraction: no control character but newline survives, for ALL texts *)
+Theorem scrub_clean :
+  forall t : text, forallb printable (scrub t) = true.
+Proof. exact scrub_clean_fact. Qed.
+Print Assumptions scrub_clean.
+
+Theorem scrub_no_esc :
+  forall t : text, ~ In ESC (scrub t).
+Proof. exact scrub_no_esc_fact. Qed.
+Print Assumptions scrub_no_esc.
+
+Theorem scrub_idempotent :
+  forall t : text, scrub (scrub t) = scrub t.
+Proof. exact scrub_idempotent_fact. Qed.
+Print Assumptions scrub_idempotent.
+
+(* HTML (and Markdown through goldmark): for EVERY parsed tree - any text, attribute value or tag name the parser produced, character references included - and every width in Z *)
+Theorem render_safe :
+  forall (col : colors) (ns : list node) (w : Z),
+  colors_ok col -> safe_b (fst (render_with_links col ns w)) = true.
+Proof. exact render_safe_fact. Qed.
+Print Assumptions render_safe.
+
+Theorem render_good :
+  forall (col : colors) (ns : list node) (w : Z),
+  colors_ok col -> good (fst (render_with_links col ns w)).
+Proof. exact render_good_fact. Qed.
+Print Assumptions render_good.
+
+(* gemtext, for every scrubbed content and width *)
+Theorem gem_render_safe :
+  forall (col : colors) (t : text) (w : Z),
+  colors_ok col -> clean t -> safe_b (fst (gem_render_with_links col t w)) = true.
+Proof. exact gem_render_safe_fact. Qed.
+Print Assumptions gem_render_safe.
+
+(* plain text *)
+Theorem plain_render_safe :
+  forall (col : colors) (t : text) (w : Z),
+  colors_ok col -> clean t -> safe_b (fst (plain_render_with_links col t w)) = true.
+Proof. exact plain_render_safe_fact. Qed.
+Print Assumptions plain_render_safe.
+
+(* error items: style.Problem of ANY error text (raw status lines, media types, quoted network bytes) *)
+Theorem problem_safe :
+  forall (col : colors) (msg : text), colors_ok col -> safe_b (problem col msg) = true.
+Proof. exact problem_safe_fact. Qed.
+Print Assumptions problem_safe.
+
+Theorem problem_good :
+  forall (col : colors) (msg : text), colors_ok col -> good (problem col msg).
+Proof. exact problem_good_fact. Qed.
+Print Assumptions problem_good.
+
+(* the status line is scrubbed and squashed *)
+Theorem set_length_clean :
+  forall (t e r : text) (len : Z),
+  clean e -> has_nl e = false -> set_length t len e = Ok r -> clean r /\ has_nl r = false.
+Proof. exact set_length_clean_fact. Qed.
+Print Assumptions set_length_clean.
+
+Theorem status_line_safe :
+  forall (col : colors) (t e r : text) (len : Z),
+  colors_ok col -> clean e -> set_length t len e = Ok r -> safe_b (highlight col r) = true.
+Proof. exact status_line_safe_fact. Qed.
+Print Assumptions status_line_safe.
+
+(* every well-formed styled text with printable letters is safe *)
+Theorem safe_wf :
+  forall cs : list cell,
+  wf_cells cs ->
+  forallb (fun c : cell => printable (letter c)) cs = true -> safe_b (collapse cs) = true.
+Proof. exact safe_wf_fact. Qed.
+Print Assumptions safe_wf.
